@@ -27,7 +27,7 @@ func (k tok) String() string { return fmt.Sprintf("%v(%q)", k.tt, k.text) }
 
 // ---------- token generators, one per railroad diagram
 
-var nonASCII = []string{"é", "ß", "中", "😀", " ", "​"}
+var nonASCII = []string{"é", "ß", "中", "😀", " ", "​", "\ufeff", "\u0085", "\u2028", "\u00ad", "\ufffd", "\U0010ffff"}
 
 // a non-hex escape: backslash + any character that is not a hex digit, newline or NUL; a hex escape is six digits, or fewer digits closed by one whitespace character or by a character that is not a hex digit
 func escape(t *rapid.T) string {
@@ -248,6 +248,14 @@ func genTok(t *rapid.T) tok {
 	case "custom":
 		return tok{css.CustomPropertyNameToken, "--" + nameChars(t, 0, 5)}
 	case "function":
+		if rapid.IntRange(0, 5).Draw(t, "nearurl") == 0 {
+			// not url: one letter is an escape of a code point whose low byte is that letter (U+0175, U+4072, U+10006C)
+			letters := []string{"u", "r", "l"}
+			i := rapid.IntRange(0, 2).Draw(t, "nearurlletter")
+			cp := rapid.SampledFrom([]int{0x100, 0x400, 0x4000, 0x10000, 0x100000}).Draw(t, "nearurlhigh") + int(strings.ToUpper(letters[i])[0]) + 0x20*rapid.IntRange(0, 1).Draw(t, "nearurlcase")
+			letters[i] = fmt.Sprintf("\\%x ", cp)
+			return tok{css.FunctionToken, strings.Join(letters, "") + "("}
+		}
 		if rapid.IntRange(0, 4).Draw(t, "dashedfunction") == 0 {
 			// an identifier may start with two dashes: followed by a parenthesis it is a function all the same
 			return tok{css.FunctionToken, "--" + nameChars(t, 0, 5) + "("}
